@@ -147,3 +147,42 @@ Proof.
     split; [discriminate|]. split; [vm_compute; discriminate|]. unfold on_pool. split; [vm_compute; discriminate|]. left; split; reflexivity.
   - eexists _, _. split; vm_compute; reflexivity.
 Qed.
+
+(* ---- BeginBlock as a whole: all pools of the block in turn. MReady is a property of the state at the start of the
+   block (key order of the position and pool stores, non-negative custody amounts and balances, every position has a
+   non-zero id, an owner other than the module account and exactly one native asset, fund percentage in [0,1], fund
+   addresses other than the module account, and the module account covers each pool's external balance + custody and the
+   sum over all pools of native balance + custody); it holds again afterwards, so the theorem applies block after block. *)
+Theorem C13_begin_block : forall s rates s' closed,
+  SumInv s -> MReady s -> begin_block_margin s rates = Ok (s', closed) ->
+  SumInv s' /\ MReady s' /\ (forall addr id h, In (addr, id, h) closed -> exists st0, h <= mp_safety (ms_params st0)).
+Proof. exact begin_block_margin_full. Qed.
+Print Assumptions C13_begin_block.
+
+Example C13_block_example :
+  let m := mkMtp 0 1000 1000 0 0 0 1 1999 (2 * PREC) 0 in
+  let p := mkMPool 1000000 2000000 1000 0 0 1999 0 0 0 0 PREC 1 10 in
+  let ps := mkMParams (2 * PREC) (105 * PREC / 100) 1 false 0 21 0 20 [1] [] false 100 true 0 0 1 in
+  let s := mkMState (mkBank [(1, [(0, 5000000); (1, 5000000)])] []) [(1, p)] [(12, [(1, m)])] 1 1 7 ps [] 0 [] 0 in
+  MReady s /\ exists s' h, begin_block_margin s [(PREC, 1, 10)] = Ok (s', [(12, 1, h)]) /\ all_mtps s' = [].
+Proof.
+  cbv zeta. split.
+  - unfold MReady. split; [split; [exists 0; cbn; auto with zarith|constructor; [exists 0; cbn; auto with zarith|constructor]]|].
+    assert (Hone : forall (P : Z -> Z -> mtp -> Prop),
+              P 12 1 (mkMtp 0 1000 1000 0 0 0 1 1999 (2 * PREC) 0) ->
+              forall addr id m0, find_mtp (mkMState (mkBank [(1, [(0, 5000000); (1, 5000000)])] []) [(1, mkMPool 1000000 2000000 1000 0 0 1999 0 0 0 0 PREC 1 10)]
+                  [(12, [(1, mkMtp 0 1000 1000 0 0 0 1 1999 (2 * PREC) 0)])] 1 1 7
+                  (mkMParams (2 * PREC) (105 * PREC / 100) 1 false 0 21 0 20 [1] [] false 100 true 0 0 1) [] 0 [] 0) addr id = Some m0 -> P addr id m0).
+    { intros P HP addr id m0 Hf. unfold find_mtp, mtps_of in Hf. cbn [ms_mtps get] in Hf.
+      destruct (Z.ltb_spec 12 addr); [discriminate Hf|]. destruct (Z.eqb_spec 12 addr) as [<-|]; [|discriminate Hf]. cbn [get] in Hf.
+      destruct (Z.ltb_spec 1 id); [discriminate Hf|]. destruct (Z.eqb_spec 1 id) as [<-|]; [|discriminate Hf]. injection Hf as <-. exact HP. }
+    split; [unfold stored_nonneg; exact (Hone (fun _ _ m0 => 0 <= m_cust_amt m0) ltac:(vm_compute; discriminate))|].
+    split; [unfold stored_shape; refine (Hone (fun addr id m0 => id <> 0 /\ addr <> CLP_MODULE /\ shape m0) _); split; [discriminate|split; [vm_compute; discriminate|]];
+            unfold shape, on_pool; split; [vm_compute; discriminate|left; split; reflexivity]|].
+    split; [vm_compute; split; discriminate|]. split; [vm_compute; split; discriminate|].
+    split; [exists 0; cbn; auto with zarith|]. split.
+    + intros a p0 Hg. cbn [ms_pools get] in Hg. destruct (Z.ltb_spec 1 a); [discriminate Hg|]. destruct (Z.eqb_spec 1 a) as [<-|]; [|discriminate Hg].
+      injection Hg as <-. vm_compute. repeat split; discriminate.
+    + vm_compute. discriminate.
+  - eexists _, _. split; vm_compute; reflexivity.
+Qed.
